@@ -174,9 +174,18 @@ def s_if(c, a, b):
   abool = isinstance(a, bool) or (is_z3(a) and a.sort() == z3.BoolSort())
   bbool = isinstance(b, bool) or (is_z3(b) and b.sort() == z3.BoolSort())
   if abool and bbool:
-    r = z3.simplify(z3.If(c, tolit(a), tolit(b)))
-    v = val(r)
-    return v if v is not None else r
+    # boolean if-then-else by local rules (no z3.simplify: its normal form depends on
+    # term creation order, which would make two evaluations of the same program differ)
+    va, vb = val(a), val(b)
+    if va is True:
+      return s_or(c, b)
+    if va is False:
+      return s_and(s_not(c), b)
+    if vb is True:
+      return s_or(s_not(c), a)
+    if vb is False:
+      return s_and(c, a)
+    return z3.If(c, a, b)
   if not is_z3(a) and not is_z3(b):
     if isinstance(a, int) and isinstance(b, int):
       if a == b:
@@ -190,16 +199,27 @@ def s_if(c, a, b):
   return z3.If(c, a, b)
 
 
+def _is_num_ite(t):
+  return (is_z3(t) and z3.is_app(t) and t.decl().kind() == z3.Z3_OP_ITE and val(t.arg(1)) is not None
+          and val(t.arg(2)) is not None and not isinstance(val(t.arg(1)), bool))
+
+
 def _cmp(op):
   def f(a, b):
     if not is_z3(a) and not is_z3(b):
       return bool(op(a, b))
+    # comparison of a 0/1 blend with a constant folds to its condition
+    if _is_num_ite(a) and not is_z3(b):
+      return s_if(a.arg(0), bool(op(val(a.arg(1)), b)), bool(op(val(a.arg(2)), b)))
+    if _is_num_ite(b) and not is_z3(a):
+      return s_if(b.arg(0), bool(op(a, val(b.arg(1)))), bool(op(a, val(b.arg(2)))))
     a, b = _pair(a, b)
     if a.eq(b):
-      return op(0, 0)
-    r = z3.simplify(op(a, b))
-    v = val(r)
-    return v if v is not None else r
+      return bool(op(0, 0))
+    va, vb = val(a), val(b)
+    if va is not None and vb is not None:
+      return bool(op(va, vb))
+    return op(a, b)
   return f
 
 
@@ -211,10 +231,36 @@ s_gt = _cmp(operator.gt)
 s_ge = _cmp(operator.ge)
 
 
+def is_nonneg(t, depth=0):
+  """syntactic non-negativity: |x| patterns, squares, max/ite of non-negatives, constants"""
+  if not is_z3(t):
+    return t >= 0
+  v = val(t)
+  if v is not None and not isinstance(v, bool):
+    return v >= 0
+  if depth > 6 or not z3.is_app(t):
+    return False
+  k = t.decl().kind()
+  if k == z3.Z3_OP_ITE:
+    c, x, y = t.children()
+    # abs pattern If(x >= 0, x, -x)
+    if z3.is_app(c) and c.decl().kind() == z3.Z3_OP_GE and c.arg(0).eq(x) and val(c.arg(1)) == 0:
+      if z3.simplify(x + y).eq(z3.RealVal(0)) or z3.simplify(x + y).eq(z3.IntVal(0)):
+        return True
+    return is_nonneg(x, depth + 1) and is_nonneg(y, depth + 1)
+  if k == z3.Z3_OP_MUL and t.num_args() == 2 and t.arg(0).eq(t.arg(1)):
+    return True
+  return False
+
+
 def s_max(a, b):
   if not is_z3(a) and not is_z3(b):
     return max(a, b)
   if is_z3(a) and is_z3(b) and a.eq(b):
+    return a
+  if not is_z3(a) and a == 0 and is_nonneg(b):
+    return b
+  if not is_z3(b) and b == 0 and is_nonneg(a):
     return a
   return s_if(s_ge(a, b), a, b)
 
@@ -243,6 +289,8 @@ def s_and(a, b):
     return a
   if a.eq(b):
     return a
+  if (z3.is_not(a) and a.arg(0).eq(b)) or (z3.is_not(b) and b.arg(0).eq(a)):
+    return False
   return z3.And(a, b)
 
 
@@ -256,6 +304,8 @@ def s_or(a, b):
     return a
   if a.eq(b):
     return a
+  if (z3.is_not(a) and a.arg(0).eq(b)) or (z3.is_not(b) and b.arg(0).eq(a)):
+    return True
   return z3.Or(a, b)
 
 
@@ -263,6 +313,8 @@ def s_not(a):
   va = val(a)
   if va is not None:
     return not va
+  if z3.is_not(a):
+    return a.arg(0)
   return z3.Not(a)
 
 
